@@ -104,6 +104,23 @@ Theorem C06_delivery : forall buf ds np evs c',
 Proof. exact P_delivery_var. Qed.
 Print Assumptions C06_delivery.
 
+(* every way of constructing the communicator only fixes the buffer size (explicit argument, else the macro
+   DUNE_PARALLEL_MAX_COMMUNICATION_BUFFER_SIZE, else the default re-read from the source into Params_gen; copies and
+   assignments copy it): delivery holds for whichever constructor was used, provided the resulting buffer can hold
+   the largest entry *)
+Theorem C06_delivery_any_ctor : forall explicit macro ds np evs c', let buf := c06_ctor_buf explicit macro in
+  Forall (fun d => c06_link_ok_var buf (v_entries d) (v_ridx d) = true /\ v_src d < np /\ v_dst d < np) ds ->
+  c06_exec (var_cfg buf ds np) evs = Some c' -> c06_enabled c' = [] ->
+  c06_returned c' = true /\
+  Forall2 (fun d l => c06_nonzero (c06_log l) = c06_spec_link (v_entries d) (v_ridx d)) ds (c_links c').
+Proof. exact (fun explicit macro => P_delivery_var (c06_ctor_buf explicit macro)). Qed.
+Print Assumptions C06_delivery_any_ctor.
+
+Theorem C06_ctor_buf_cases : forall b m, c06_ctor_buf (Some b) m = b /\ c06_ctor_buf None (Some b) = b /\
+  c06_ctor_buf None None = NArith.BinNat.N.to_nat DuneV.Params_gen.c06_param_default_buffer.
+Proof. exact (fun b m => conj eq_refl (conj eq_refl eq_refl)). Qed.
+Print Assumptions C06_ctor_buf_cases.
+
 (* the global system is the product of the per-pair systems coupled only by the per-process barrier: every global
    event preserves, for every link, the per-link invariant VInv, and the phase flags of the links agree with the
    phases of their processes *)
